@@ -22,11 +22,11 @@ type Src interface {
 
 // Cfg is the static configuration of a world.
 type Cfg struct {
-	IDs             int                     // identities 0..IDs-1
-	Validators      func(h uint32) []int    // validator identities for block index h
-	ValDesc         string                  // description of the schedule for traces
-	StartTip        uint32                  // ledger height at start
-	AMEVHeight      int64                   // -1: off
+	IDs             int                  // identities 0..IDs-1
+	Validators      func(h uint32) []int // validator identities for block index h
+	ValDesc         string               // description of the schedule for traces
+	StartTip        uint32               // ledger height at start
+	AMEVHeight      int64                // -1: off
 	TimePerBlock    time.Duration
 	MaxTimePerBlock time.Duration // 0: extension off
 	TsIncrement     uint64
@@ -99,11 +99,11 @@ type World struct {
 	Universe  []vt.Tx
 	nextTx    uint64
 
-	Actions []string       // rendered actions (when KeepLog)
-	Stats   map[string]int // class counters
+	Actions     []string       // rendered actions (when KeepLog)
+	Stats       map[string]int // class counters
 	FaultBudget int
 	TimedRes    *Timed
-	detRand *detReader
+	detRand     *detReader
 }
 
 // Stat increments a class counter.
